@@ -318,6 +318,19 @@ Definition prob_named (c : cpd) (names : list state) : option A :=
 
 End Layout.
 
+(* ================================================================ BayesianNetwork.save / load dispatch *)
+(* formats as codes: 0 bif, 1 uai, 2 xmlbif; anything else (net, txt, no extension, ...) is "not one of the
+   supported formats".  [ext] is filename.split(".")[-1].lower(), [ft] the filetype argument (default "bif" = 0).
+   save:  if ext in supported: filetype = ext;  then bif / uai / xmlbif writer, otherwise NOTHING is written.
+   load:  the same test, then bif / uai / xmlbif reader, otherwise None is returned. *)
+Definition supported (f : nat) : bool := f <? 3.
+Definition save_format (ext ft : nat) : option nat :=
+  let filetype := if supported ext then ext else ft in
+  if filetype =? 0 then Some 0 else if filetype =? 1 then Some 1 else if filetype =? 2 then Some 2 else None.
+Definition load_format (ext ft : nat) : option nat :=
+  let filetype := if supported ext then ext else ft in
+  if filetype =? 0 then Some 0 else if filetype =? 1 then Some 1 else if filetype =? 2 then Some 2 else None.
+
 Arguments cpd : clear implicits.
 Arguments bn : clear implicits.
 Arguments factor : clear implicits.
